@@ -75,7 +75,7 @@ pub fn main(args: &[String]) {
         let key_name = *["k.", "Key.Example.", "a.b.c.d.e."].choose(&mut r).unwrap();
         let prep = PreparedTsigRr { key_name: nm(key_name).into(), time_signed: TimeSigned::try_from_unix_time(ts).unwrap(), fudge,
             original_id: r.gen(), error: ExtendedRcode::from(error), server_time: TimeSigned::try_from_unix_time(server_time).unwrap() };
-        let mut buf = vec![0u8; 2048];
+        let mut buf = vec![0xFFu8; 2048];
         let q = Question { qname: nm("www.example.test."), qtype: Type::A.into(), qclass: Class::IN.into() };
         let n_an = r.gen_range(0..3);
         let edns = r.gen_bool(0.4);
